@@ -511,4 +511,16 @@ def map (sem : Sem) (runner : Runner) (prog : Program) (root : Nat) (values : AL
   mapGraph (fun v sp => runGraph nested sem runner root g v { cfg with errMode := .cont } sp (some ["m"]))
     (isSyncRunner runner) g values mapOver mode errMode ["m"] .none
 
+/-- `_validate_max_concurrency`: no limit at all, or at least one slot -/
+def limitOk : Option Int → Bool
+  | .none => true
+  | some k => decide (1 ≤ k)
+
+/-- `AsyncRunner.map(..., max_concurrency=k)`: the limit is validated before anything runs or is emitted; a valid limit bounds how many
+bodies execute at once (C15) and does not enter the result -/
+def mapLimited (sem : Sem) (runner : Runner) (prog : Program) (root : Nat) (values : AL Val)
+    (mapOver : List Name) (mode : MapMode) (errMode : ErrMode) (cfg : RunCfg) (k : Option Int) : MapOut :=
+  if limitOk k then map sem runner prog root values mapOver mode errMode cfg
+  else { raised := some (.valueError "max_concurrency") }
+
 end HG
